@@ -375,3 +375,108 @@ func (h *harness) blockTxWriteFailures() {
 		}
 	}
 }
+
+// blockTxReadFaults: a READ fails inside the migration (header fetch, scan of the old entries, Has,
+// chain height, first-block scan) — once, or from then on. The fault positions sweep every read of
+// an undisturbed run. Migrate must refuse cleanly (error, nothing lost: the partial batch that Done
+// still hands to the committer must not remove old data of blocks it did not migrate); a rerun on
+// a healthy store must complete with the original content.
+func (h *harness) blockTxReadFaults() {
+	specs := []chainSpec{
+		{Seed: 5, Counts: repeatInt(2, 35), Layout: strings.Repeat("o", 35)},
+	}
+	sparse := chainSpec{Seed: 6, Counts: make([]int, 27)}
+	lay := make([]byte, 27)
+	for b := range lay {
+		lay[b] = '-'
+		if b%3 != 1 {
+			sparse.Counts[b], lay[b] = 1, 'o'
+		}
+	}
+	sparse.Layout = string(lay)
+	specs = append(specs, sparse)
+	for _, c := range specs {
+		d, err := c.build()
+		if err != nil {
+			continue
+		}
+		tw := runBlockTx(d, btPlan{}, false)
+		if tw.ret != "done" {
+			continue
+		}
+		twin := dump(tw.final)
+		step := func(n int64) int64 {
+			if h.f.Thorough() || n <= 40 {
+				return 1
+			}
+			return n/40 + 1
+		}
+		var plans []btPlan
+		for g := int64(1); g <= tw.gets; g += step(tw.gets) {
+			plans = append(plans, btPlan{FailGetAt: g}, btPlan{FailGetAt: g, FailGetAll: true})
+		}
+		for i := int64(1); i <= tw.iters; i += step(tw.iters) {
+			plans = append(plans, btPlan{FailIterAt: i}, btPlan{FailIterAt: i, FailIterAll: true}, btPlan{FailIterAt: i, Inflate: true})
+		}
+		for _, plan := range plans {
+			h.blockTxReadFaultCase(c, d, twin, plan)
+		}
+	}
+}
+
+// blockTxReadFaultCase: one read-fault plan on database d of spec c (twin = dump of the undisturbed run).
+func (h *harness) blockTxReadFaultCase(c chainSpec, d *memory.Database, twin map[string]string, plan btPlan) {
+	o := runBlockTxD(d, plan, false, 6*time.Second, true)
+	h.res.Case(fmt.Sprintf("readfault|%d|%+v", c.Seed, plan), true)
+	kind := "get"
+	if plan.FailIterAt > 0 {
+		kind = "iter"
+	}
+	h.res.Hit("bt-readfault:" + kind + ":" + o.ret)
+	rp := map[string]any{"spec": c, "plan": plan, "what": "run Migrate with the read fault, then rerun on a healthy store, read every block"}
+	if o.ret == "hang" || o.ret == "panic" {
+		h.res.Violate(lib.Violation{Sig: "blocktx-migrate-" + o.ret + "-on-read-error", What: o.errText, Replay: rp})
+		return
+	}
+	// (1) nothing may be lost by the faulty run itself: every block still has its data in
+	// one layout or the other
+	lostAt := -1
+	post := abstractImage(o.final, c)
+	for b := range post {
+		f := strings.Split(post[b], ":")
+		if c.Counts[b] > 0 && f[1] == "-" && f[3] == "x" {
+			lostAt = b
+			break
+		}
+	}
+	if lostAt >= 0 {
+		h.res.Hit("oracle:blocktx-read-error-loses-unmigrated-blocks")
+		h.res.Violate(lib.Violation{Sig: "blocktx-read-error-loses-unmigrated-blocks",
+			What: fmt.Sprintf("a read failed while a range was being ingested; the batch written afterwards removed the old transactions/receipts of "+
+				"block %d (%d transactions) although no new entry was written for it (layout after the run: %s)", lostAt, c.Counts[lostAt], layoutOf(o.final, c.height())),
+			Replay: rp})
+		return
+	}
+	// (2) model: the observed step must be an ingest-error / failed step of the model
+	if o.failedReads > 0 && o.ret == "failed" {
+		h.bt.ingestErrorTransition(c, d, o.final, rp)
+	} else {
+		h.bt.transition(c, d, o.final, "return", o.ret, "read-fault-not-hit-or-absorbed")
+	}
+	if o.ret == "done" {
+		checkFinal(h.res, c, c, o.final)
+		return
+	}
+	// (3) rerun on a healthy store
+	r := runBlockTx(o.final, btPlan{}, false)
+	if r.ret != "done" {
+		h.res.Violate(lib.Violation{Sig: "blocktx-resume-fails-after-read-error", What: r.ret + " " + r.errText, Replay: rp})
+		return
+	}
+	h.bt.transition(c, o.final, r.final, "return", "done", "rerun-after-read-fault")
+	if checkFinal(h.res, c, specOfImage(c, o.final), r.final) {
+		if same, why := sameDump(dump(r.final), twin); !same {
+			h.res.Violate(lib.Violation{Sig: "blocktx-final-db-differs-from-uninterrupted-run", What: "after a read error and a rerun: " + why, Replay: rp})
+		}
+	}
+}
